@@ -13,7 +13,7 @@ RULE = ("Hypothesis (program, drive, subscribe) triples: C02-style handler progr
         "requests) whose handlers make observations with literal values to a SimCounter, SimTally, SimWeightedTally "
         "and SimPersistent created in construct_model (default event types, and a custom EventType via listen_to for "
         "the tally); replications with warm-up before / exactly on / between / after event times and beyond the end; "
-        "drive in {start, steps, stop()-pause, bounded runs}; optionally a subscriber on every statistic for every "
+        "drive in {start, steps, stop()-pause, bounded runs}, optionally as a later replication on the same simulator and model; optionally a subscriber on every statistic for every "
         "StatEvents type. Oracle: ordinary Counter/Tally/WeightedTally/TimestampWeightedTally fed exactly the "
         "observations that the reference interpreter executes after the warm-up reset (persistent closed with "
         "end_observations(end)): every getter bit-identical; independent exact (Fraction) time-integral for the "
@@ -86,6 +86,7 @@ def strategy(tier):
         "drive": st.sampled_from(["start", "start", "steps", "pause", "bounded"]),
         "k": st.integers(1, 10), "cuts": st.lists(st.integers(1, 9), min_size=1, max_size=3),
         "subscribe": st.booleans(),
+        "reinit": st.sampled_from([None, None, None, "ended", "init", "bounded"]),
     })
 
 
@@ -239,6 +240,20 @@ def run_case(case):
     _install(h.model, case["subscribe"], published)
     try:
         h.initialize()
+        if case.get("reinit"):
+            # an earlier replication on the same simulator and model (statistics are rebuilt by construct_model)
+            out.label("after-earlier-replication=" + case["reinit"])
+            if case["reinit"] == "ended":
+                h.run_piece(["start"])
+            elif case["reinit"] == "bounded":
+                r0 = RefSim(prog)
+                r0.initialize()
+                h.run_piece(["run_up_to_incl", _jt(_bound(r0, 5, ck), ck)])
+            from vlib.simharness import Recorder
+            h.rec = Recorder()
+            published["n"] = 0
+            del published["bad"][:]
+            h.initialize()
         for key, name in (("c", "cnt"), ("t", "tal"), ("w", "wt"), ("p", "per")):
             try:
                 if h.model.get_output_statistic(name) is not h.model.stats[key]:
